@@ -158,6 +158,157 @@ def state_stores(node):
                     yield "tls", n
 
 
+def _handle_expr(e, depth=0) -> bool:
+    """an expression that only *names* a piece of selection state or the active backend:
+    attribute chains on a name, X.current_backend(), the thread-slot-else-default lookup,
+    getattr(<such>, <name>)"""
+    if depth > 4:
+        return False
+    if isinstance(e, ast.Name):
+        return True
+    if isinstance(e, ast.Attribute):
+        return _handle_expr(e.value, depth + 1)
+    if is_active_backend_expr(e):
+        return True
+    if isinstance(e, ast.Call) and is_name(e.func, "getattr") and len(e.args) == 2 and _handle_expr(e.args[0], depth + 1) and isinstance(e.args[1], (ast.Name, ast.Constant)):
+        return True
+    return False
+
+
+def _inline_trivial_closures(fn):
+    """in place: a helper nested directly in `fn` that takes no parameters is inlined at its call sites --
+    `helper()` as a statement is replaced by the helper's statements (when it returns nothing), `helper()` in
+    an expression by the returned expression (when the body is one `return <expr>`)"""
+    import copy
+
+    helpers = {}
+    for n in fn.body:
+        lifted = set(getattr(n, "_lifted", ())) if isinstance(n, ast.FunctionDef) else set()
+        if isinstance(n, ast.FunctionDef) and not (n.args.args or n.args.posonlyargs or n.args.vararg or n.args.kwarg) and {a.arg for a in n.args.kwonlyargs} <= lifted and not n.decorator_list:
+            body = [b for b in n.body if not (isinstance(b, ast.Expr) and isinstance(b.value, ast.Constant) and isinstance(b.value.value, str))]
+            if len(body) == 1 and isinstance(body[0], ast.Return) and body[0].value is not None:
+                helpers[n.name] = ("expr", body[0].value)
+            elif body and not any(isinstance(x, (ast.Return, ast.Yield, ast.YieldFrom)) for b in body for x in ast.walk(b)):
+                helpers[n.name] = ("stmts", body)
+    if not helpers:
+        return
+    # the name must only ever be called
+    for n in ast.walk(fn):
+        if isinstance(n, ast.Name) and n.id in helpers and isinstance(n.ctx, ast.Load):
+            pass
+    used_as_value = set()
+    def plain(c):
+        return not c.args and all(k.arg is not None and isinstance(k.value, ast.Name) and k.value.id == k.arg for k in c.keywords)
+
+    calls = {id(c.func) for c in ast.walk(fn) if isinstance(c, ast.Call) and isinstance(c.func, ast.Name) and c.func.id in helpers and plain(c)}
+    for n in ast.walk(fn):
+        if isinstance(n, ast.Name) and n.id in helpers and isinstance(n.ctx, ast.Load) and id(n) not in calls:
+            used_as_value.add(n.id)
+    for h in used_as_value:
+        helpers.pop(h, None)
+
+    class T(ast.NodeTransformer):
+        def visit_FunctionDef(self, node):
+            if node is fn:
+                return self.generic_visit(node)
+            return node
+
+        def visit_Expr(self, node):
+            c = node.value
+            if isinstance(c, ast.Call) and isinstance(c.func, ast.Name) and c.func.id in helpers and helpers[c.func.id][0] == "stmts" and plain(c):
+                out = [copy.deepcopy(b) for b in helpers[c.func.id][1]]
+                for b in out:
+                    for x in ast.walk(b):
+                        if hasattr(x, "lineno"):
+                            ast.copy_location(x, node)
+                return out
+            return self.generic_visit(node)
+
+        def visit_Call(self, node):
+            node = self.generic_visit(node)
+            if isinstance(node.func, ast.Name) and node.func.id in helpers and helpers[node.func.id][0] == "expr" and plain(node):
+                new = copy.deepcopy(helpers[node.func.id][1])
+                for x in ast.walk(new):
+                    if hasattr(x, "lineno"):
+                        ast.copy_location(x, node)
+                return new
+            return node
+
+    T().visit(fn)
+    # the inlined helpers are no longer called: their definitions are dropped
+    fn.body = [n for n in fn.body if not (isinstance(n, ast.FunctionDef) and n.name in helpers)] or [ast.Pass()]
+    ast.fix_missing_locations(fn)
+
+
+def _inline_handle_aliases(fn):
+    """in place: every Load of a local that has exactly one assignment `x = <handle expression>` (and is
+    neither a parameter, nor re-bound, nor a loop / with / except target) is replaced by a copy of
+    that expression carrying the position of the use"""
+    import copy
+
+    own = []
+    stack = list(fn.body)
+    while stack:
+        n = stack.pop()
+        own.append(n)
+        for c in ast.iter_child_nodes(n):
+            if not isinstance(c, (ast.FunctionDef, ast.AsyncFunctionDef, ast.ClassDef, ast.Lambda)):
+                stack.append(c)
+    params = {a.arg for a in fn.args.args + fn.args.kwonlyargs + fn.args.posonlyargs} | ({fn.args.vararg.arg} if fn.args.vararg else set()) | ({fn.args.kwarg.arg} if fn.args.kwarg else set())
+    stores = {}
+    for n in own:
+        if isinstance(n, ast.Name) and isinstance(n.ctx, (ast.Store, ast.Del)):
+            stores[n.id] = stores.get(n.id, 0) + 1
+    # a *read* of the selection (current_backend(), the slot lookup) is only an alias while nothing in the
+    # function can change the selection; object handles (cls._THREAD_LOCAL_DATA, cls._loaded_backends) always are
+    writes = any(True for _ in state_stores(fn)) or any(isinstance(c, ast.Call) and call_name(c) in ("set_backend", "load_backend", "initialize_backend", "setattr") for c in own)
+
+    def is_pure_handle(e):
+        return isinstance(e, ast.Attribute) and (isinstance(e.value, ast.Name) or is_pure_handle(e.value))
+
+    aliases = {}
+    for n in own:
+        if isinstance(n, ast.Assign) and len(n.targets) == 1 and isinstance(n.targets[0], ast.Name):
+            nm = n.targets[0].id
+            if nm not in params and stores.get(nm) == 1 and _handle_expr(n.value) and not isinstance(n.value, ast.Name):
+                if is_pure_handle(n.value) or not writes:
+                    aliases[nm] = n.value
+    # `k = registry[name]` used only in the very next statement (`b = k()`): no state can change in between
+    for blk in [x for x in [fn] + own for fld in ("body", "orelse", "finalbody") if isinstance(getattr(x, fld, None), list) for x in [getattr(x, fld)]]:
+        for a, b in zip(blk, blk[1:]):
+            if isinstance(a, ast.Assign) and len(a.targets) == 1 and isinstance(a.targets[0], ast.Name) and isinstance(a.value, ast.Subscript) and is_pure_handle(a.value.value) and isinstance(a.value.slice, ast.Name):
+                nm = a.targets[0].id
+                uses = [x for x in own if isinstance(x, ast.Name) and x.id == nm and isinstance(x.ctx, ast.Load)]
+                if nm not in params and stores.get(nm) == 1 and uses and all(any(u is y for y in ast.walk(b)) for u in uses):
+                    aliases[nm] = a.value
+    if not aliases:
+        return
+
+    class T(ast.NodeTransformer):
+        def visit_FunctionDef(self, node):
+            return node if node is not fn else self.generic_visit(node)
+
+        visit_AsyncFunctionDef = visit_FunctionDef
+
+        def visit_Lambda(self, node):
+            return node
+
+        def visit_Name(self, node):
+            if isinstance(node.ctx, ast.Load) and node.id in aliases:
+                new = copy.deepcopy(aliases[node.id])
+                for x in ast.walk(new):
+                    if hasattr(x, "lineno") or isinstance(x, (ast.expr, ast.stmt)):
+                        ast.copy_location(x, node)
+                return T().visit(new)
+            return node
+
+    T().visit(fn)
+    for n in own:
+        if isinstance(n, ast.Assign) and len(n.targets) == 1 and isinstance(n.targets[0], ast.Name) and n.targets[0].id in aliases:
+            n._inlined_alias = True
+    ast.fix_missing_locations(fn)
+
+
 # ---------------------------------------------------------------------------------
 def run(ctx: Ctx):
     repo, res = ctx.repo, ctx.res
@@ -175,6 +326,13 @@ def run(ctx: Ctx):
 
     mods = [repo.module(m) for m, _ in MANAGERS]
     mgrs = [repo.cls(f"{m}.{c}") for m, c in MANAGERS]
+    # named temporaries for state handles (`tls = cls._THREAD_LOCAL_DATA`, `active = cls.current_backend()`,
+    # `method = getattr(active, name)`) are seen through: their uses are replaced by the handle expression
+    for m in mods:
+        for fn in [n for n in ast.walk(m.tree) if isinstance(n, (ast.FunctionDef, ast.AsyncFunctionDef))]:
+            _inline_trivial_closures(fn)
+            _inline_handle_aliases(fn)
+
     core = repo.module("tensorly.backend.core")
     base_tenalg = repo.module("tensorly.tenalg.base_tenalg")
     scan_mods = mods + [core, base_tenalg, repo.module("tensorly")]
@@ -233,6 +391,13 @@ def rule_R1(ctx: Ctx, scan_mods):
                 if isinstance(top, ast.Attribute) and isinstance(top.ctx, ast.Store):
                     continue
                 if isinstance(top, ast.Subscript) and isinstance(top.ctx, ast.Store):
+                    continue
+                # setattr(<tls>, "backend", v) is a store, not a read (R3's business)
+                if isinstance(full, ast.Call) and is_name(full.func, "setattr") and full.args and full.args[0] is top and len(full.args) >= 2 and is_const(full.args[1], SLOT):
+                    continue
+                # the definition of an inlined handle alias (`tls = cls._THREAD_LOCAL_DATA`): every use was
+                # replaced by the handle and is judged where it is used
+                if isinstance(pp, ast.Assign) and pp.value is top and getattr(pp, "_inlined_alias", False):
                     continue
                 lk = r1_lookup(full)
                 ok = lk is not None and _is_shared_default(lk[1], lk[0])
@@ -505,6 +670,8 @@ class _ContextRule:
         a = node.ast
         if a is None or node.kind not in ("stmt", "return", "with", "test", "for"):
             return st
+        if isinstance(a, (ast.FunctionDef, ast.AsyncFunctionDef, ast.ClassDef)):
+            return st  # defining a helper executes nothing of its body
         for c in ast.walk(a):
             if isinstance(c, (ast.Yield, ast.YieldFrom)):
                 if not entered:
